@@ -88,9 +88,24 @@ fn single_val<N: Numeric + Lab>(r: Result<Array<N>, ArrayError>) -> String {
     match r { Ok(a) => match a.get_elements() { Ok(v) if v.len() == 1 => v[0].to_lab(), _ => "?".into() }, Err(_) => "E".into() }
 }
 
+/// round / around: the second operand is an array of decimal places (isize), taken literally from the labels
+fn ew2_round<N: Elem>(pool: bool, op: &str, s1: &[usize], e1: &[i128], s2: &[usize], e2: &[i128]) -> Option<String> {
+    let a = mkn::<N>(pool, s1, e1)?;
+    let d = Array::<isize>::new(e2.iter().map(|&x| x as isize).collect(), s2.to_vec()).ok()?;
+    let call = |x: &Array<N>, y: &Array<isize>| if op == "round" { x.round(y) } else { x.around(y) };
+    let r = call(&a, &d);
+    let mut tbl = vec![];
+    for &x in &distinct(e1) { for &y in &distinct(e2) {
+        let v = single_val(call(&Array::single(N::conv(pool, x)).unwrap(), &Array::single(y as isize).unwrap()));
+        tbl.push(format!("{x}/{y}={v}"));
+    } }
+    Some(format!("{}|tbl({})", res_arr(&r), tbl.join(";")))
+}
+
 /// result + scalar table obtained from the same operation on one-element arrays
 fn ew2<N: Elem>(pool: bool, op: &str, args: &[Arg]) -> Option<String> {
     let (s1, e1, s2, e2) = match args { [Arg::A(s1, e1), Arg::A(s2, e2), ..] => (s1, e1, s2, e2), _ => return None };
+    if op == "round" || op == "around" { return ew2_round::<N>(pool, op, s1, e1, s2, e2) }
     let (a, b) = (mkn::<N>(pool, s1, e1)?, mkn::<N>(pool, s2, e2)?);
     let r = call2(op, &a, &b)?;
     let mut tbl = vec![];
@@ -101,13 +116,32 @@ fn ew2<N: Elem>(pool: bool, op: &str, args: &[Arg]) -> Option<String> {
     Some(format!("{}|tbl({})", res_arr(&r), tbl.join(";")))
 }
 
-fn ew1<N: Elem>(pool: bool, op: &str, args: &[Arg]) -> Option<String> {
+fn ew1<N: SignBit>(pool: bool, op: &str, args: &[Arg]) -> Option<String> {
     let (s1, e1) = match args { [Arg::A(s1, e1)] => (s1, e1), _ => return None };
     let a = mkn::<N>(pool, s1, e1)?;
+    if op == "signbit" { return signbit_of(pool, &a, e1) }
     let r = call1(op, &a)?;
     let mut tbl = vec![];
     for &x in &distinct(e1) {
         let v = single_val(call1(op, &Array::single(N::conv(pool, x)).unwrap())?);
+        tbl.push(format!("{x}={v}"));
+    }
+    Some(format!("{}|tbl({})", res_arr(&r), tbl.join(";")))
+}
+
+/// signbit exists for the floating types only
+trait SignBit: Elem { fn signbit_arr(a: &Array<Self>) -> Option<Result<Array<bool>, ArrayError>>; }
+macro_rules! no_signbit { ($($t:ty),*) => { $(impl SignBit for $t { fn signbit_arr(_: &Array<Self>) -> Option<Result<Array<bool>, ArrayError>> { None } })* } }
+no_signbit!(u8, u16, u32, u64, i8, i16, i32, i64);
+impl SignBit for f64 { fn signbit_arr(a: &Array<Self>) -> Option<Result<Array<bool>, ArrayError>> { Some(a.signbit()) } }
+impl SignBit for f32 { fn signbit_arr(a: &Array<Self>) -> Option<Result<Array<bool>, ArrayError>> { Some(a.signbit()) } }
+fn signbit_of<N: SignBit>(pool: bool, a: &Array<N>, e1: &[i128]) -> Option<String> {
+    let r = N::signbit_arr(a)?;
+    let mut tbl = vec![];
+    for &x in &distinct(e1) {
+        let v = match N::signbit_arr(&Array::single(N::conv(pool, x)).unwrap())? {
+            Ok(b) => b.get_elements().ok().and_then(|v| v.first().map(|t| if *t { "1" } else { "0" }.to_string())).unwrap_or("?".into()),
+            Err(_) => "E".into() };
         tbl.push(format!("{x}={v}"));
     }
     Some(format!("{}|tbl({})", res_arr(&r), tbl.join(";")))
